@@ -455,7 +455,7 @@ def run_stub(ck, n_r, n_u):
                         "impl": s[:300]},
                 tags=[ref, "spec:" + c["kind"], "ok" if mol is not None else s, "sym" if c["sym"] else "asym"])
     try:
-        model = ck.coq_eval("stub", PREAMBLE, exprs, shard=12)
+        model = ck.coq_eval("stub", PREAMBLE, exprs, shard=12, jobs=3)
     except Exception as e:
         ck.violation("C04/correspondence/model-evaluation", "the Coq model could not be evaluated: %s" % str(e)[-600:],
                      {"kind": "model-eval"}, found_input=False)
@@ -505,6 +505,10 @@ def pyscf_cases(ck):
         {"name": "H4-UHF-triplet-frozen[[1],[0]]", "xyz": chain(4, 0.9), "q": 0, "spin": 2, "uhf": True, "frozen": [[1], [0]]},
         {"name": "H4-UHF-triplet-frozen[[0,1],[0]]", "xyz": chain(4, 0.9), "q": 0, "spin": 2, "uhf": True, "frozen": [[0, 1], [0]]},
         {"name": "H3-UHF-doublet-frozen[[1],[0]]", "xyz": chain(3, 0.95), "q": 0, "spin": 1, "uhf": True, "frozen": [[1], [0]]},
+        # unequal numbers of active orbitals per spin, two active alpha electrons; a one-electron UHF molecule
+        {"name": "H5-UHF-quartet-frozen[[0,1],[0]]", "xyz": chain(5, 0.9), "q": 0, "spin": 3, "uhf": True, "frozen": [[0, 1], [0]]},
+        {"name": "H4-UHF-triplet-frozen[[0],[]]", "xyz": chain(4, 0.9), "q": 0, "spin": 2, "uhf": True, "frozen": [[0], []]},
+        {"name": "H2+-UHF-one-electron", "xyz": chain(2, 1.0), "q": 1, "spin": 1, "uhf": True, "frozen": None},
     ]
     if ck.tier == "quick":
         return fixed
@@ -602,13 +606,23 @@ def target_sector(mol):
     return act, full
 
 
-def sector_ground_energy(mol):
+def sector_ground_energy(mol, both=False):
     """lowest eigenvalue of the ACTIVE-space fermionic Hamiltonian (JW matrix from openfermion) in the target
-    (n_alpha, n_beta) sector."""
+    (n_alpha, n_beta) sector.  both=True: also the value with the padding spin-orbitals kept empty (UHF molecules with
+    different numbers of active orbitals per spin are padded to 2*max(n_a, n_b) spin-orbitals)."""
     nq = mol.n_active_sos
     (na, nb), _ = target_sector(mol)
     mat = _jw_matrix(mol.fermionic_hamiltonian, nq)
-    return _lowest_in(mat, nq, lambda bits: sum(bits[0::2]) == na and sum(bits[1::2]) == nb)
+    e_all = _lowest_in(mat, nq, lambda bits: sum(bits[0::2]) == na and sum(bits[1::2]) == nb)
+    if not both:
+        return e_all
+    pad = []
+    if mol.uhf:
+        nma, nmb = mol.n_active_mos
+        pad = [2 * p for p in range(nma, nq // 2)] + [2 * p + 1 for p in range(nmb, nq // 2)]
+    e_nopad = e_all if not pad else _lowest_in(mat, nq, lambda bits: sum(bits[0::2]) == na and sum(bits[1::2]) == nb
+                                               and not any(bits[x] for x in pad))
+    return e_all, e_nopad, pad
 
 
 def projected_full_space_energy(mol):
@@ -660,8 +674,11 @@ def run_pyscf_support(ck):
             try:
                 e = reference_expectation(mol, mapping, utd)
             except Exception as ex:
-                ck.notes.setdefault("pyscf_reference_errors", []).append("%s %s/%s: %r" % (pc["name"], mapping, utd, ex))
-                continue
+                cls = "uhf/one-electron" if (pc["uhf"] and mol.n_electrons == 1) else ("uhf" if pc["uhf"] else "restricted")
+                ck.violation("C04/pyscf/%s/hamiltonian-raises/%s" % (cls, type(ex).__name__),
+                             "%s: building the qubit Hamiltonian / reference expectation (%s, up_then_down=%s) raised %r" % (pc["name"], mapping, utd, ex),
+                             {"kind": "pyscf", "case": json.loads(json.dumps(pc)), "mapping": mapping, "up_then_down": utd}, found_input=True)
+                break
             if abs(e - mol.mf_energy) > tol:
                 ck.violation("C04/pyscf/reference-energy/%s/%s" % ("uhf" if pc["uhf"] else ("rohf" if pc["spin"] else "rhf"), mapping),
                              "%s: mean-field energy %.10f, <ref|H|ref> %.10f (%s, up_then_down=%s)" % (pc["name"], mol.mf_energy, e, mapping, utd),
@@ -671,11 +688,19 @@ def run_pyscf_support(ck):
         ref = "uhf" if pc["uhf"] else ("rohf-spin%d" % pc["spin"] if pc["spin"] else "rhf")
         pcj = json.loads(json.dumps(pc))
         try:
-            e0 = sector_ground_energy(mol)
+            e_all, e0, pad = sector_ground_energy(mol, both=True)
         except Exception as ex:
             ck.notes.setdefault("pyscf_sector_errors", []).append("%s: %r" % (pc["name"], ex))
             continue
         (na, nb), _ = target_sector(mol)
+        if pad and e0 - e_all > 1e-7:
+            # the comparisons below continue with the padding orbitals kept empty (e0), so that this input class does not
+            # hide another failure
+            ck.violation("C04/pyscf/uhf/unequal-active-spaces/padding-spin-orbital-lowers-sector-energy",
+                         "%s: active orbitals per spin %s are padded to %d spin-orbitals; the lowest eigenvalue of the qubit Hamiltonian in sector "
+                         "(n_alpha,n_beta)=(%d,%d) is %.9f, but %.9f when the coefficient-free padding spin-orbital(s) %s stay empty (= full CI with this "
+                         "frozen pattern)" % (pc["name"], mol.n_active_mos, mol.n_active_sos, na, nb, e_all, e0, pad),
+                         {"kind": "pyscf", "case": pcj, "what": "sector"}, found_input=True)
         if tuple(int(x) for x in mol.n_active_ab_electrons) != (na, nb):
             ck.violation("C04/pyscf/electron-count/%s" % ref, "%s: n_active_ab_electrons %s, recount from occupations/charge/spin %s"
                          % (pc["name"], mol.n_active_ab_electrons, (na, nb)), {"kind": "pyscf", "case": pcj, "what": "sector"}, found_input=True)
@@ -749,7 +774,7 @@ def rotation_invariance(ck, mol, e0):
         c[:, act] = c[:, act] @ rot(len(act))
         mol.mo_coeff = c
     try:
-        e1 = sector_ground_energy(mol)
+        e1 = sector_ground_energy(mol, both=True)[1]
     finally:
         mol.mo_coeff = old
     if abs(e1 - e0) > 1e-6:
@@ -842,10 +867,10 @@ def replay(data):
                                       frozen_orbitals=pc["frozen"], uhf=pc["uhf"])
         print("mf_energy", mol.mf_energy)
         if r.get("what") == "sector":
-            e0 = sector_ground_energy(mol)
+            e_all, e0, pad = sector_ground_energy(mol, both=True)
             (na, nb), _ = target_sector(mol)
-            print("sector", (na, nb), "lowest eigenvalue of the active-space Hamiltonian", e0)
-            bad = 0
+            print("sector", (na, nb), "lowest eigenvalue of the active-space Hamiltonian", e_all, "with padding spin-orbitals", pad, "empty:", e0)
+            bad = 1 if e0 - e_all > 1e-7 else 0
             if mol.frozen_mos is not None and mol.n_sos <= 10:
                 ep = projected_full_space_energy(mol)
                 print("full-space Hamiltonian restricted to the frozen pattern", ep)
@@ -858,7 +883,11 @@ def replay(data):
                 bad |= abs(ef - e0) > 1e-6
             return 1 if bad else 0
         if "mapping" in r:
-            e = reference_expectation(mol, r["mapping"], r["up_then_down"])
+            try:
+                e = reference_expectation(mol, r["mapping"], r["up_then_down"])
+            except Exception as ex:
+                print("raised", repr(ex))
+                return 1
             print("<ref|H|ref>", e)
             return 1 if abs(e - mol.mf_energy) > 1e-7 else 0
         return 1
